@@ -31,6 +31,16 @@ def gen_cases(tier, seed):
                 a = "%s %s %s" % (c03.rmac(rng), c03.rmac(rng), c03.rmac(rng))
                 ds = " ".join("D:" + hx([rng.randrange(256) for _ in range(L)]) for L in pieces)
                 cases.append("gen %s %s %d - - - - - - %s B*" % (kind, a, rng.randrange(256), ds))
+    # objects stripped of every element (create, then remove tag after tag), and stripped then given elements again: the parameter
+    # block is NULL / freshly allocated, the encoding is header + fixed parameters only; every buffer size 0..len+2
+    for k in DUMPERS:
+        if k in ("action", "action_noack"):
+            continue
+        for tail in ("X", "X A:5:0102", "A:7:%s X" % hx([1] * 200), "X X A:0:"):
+            base = c03.one(rng, k, B="@B@").split()
+            base = [t for t in base if not t.startswith("A:")]
+            cases.append(" ".join(base[:-1] + tail.split() + ["B*"]))
+            cases.append(" ".join(base[:-1] + tail.split() + ["B4096"]))
     n_sweeps = len(cases)
     # encodings of 65536 bytes and more (a length that no longer fits 16 bits): 256..258 maximal elements appended;
     # every buffer below is shorter than the encoding, so each dump must refuse and write nothing
